@@ -19,7 +19,7 @@ D2 == [types |-> <<Obj("Err", <<F("code", "int", FALSE, TRUE, TRUE)>>, ""),
 D3 == NoDoc
 MCDocs == {D1, D2, D3}
 MCFormats == {"openapi3", "swagger", "xsd", "spanner", "postgres"}
-DocsWellFormed == \A d \in MCDocs : WellFormed(d) /\ WellFormed(XsdDoc(d)) /\ WellFormed(SqlDoc(d)) /\ WellFormed(ExportDoc(d))
+DocsWellFormed == \A d \in MCDocs : WellFormed(d) /\ WellFormed(XsdDoc(d)) /\ WellFormed(SqlDoc(d)) /\ WellFormed(ExportDoc(d)) /\ WellFormed(AvroDoc(d)) /\ WellFormed(ProtoDoc(d))
 \* the derived type carries the fields of the type it extends; inline fields are carried with their owner's path
 FactsSanity == /\ <<"F", "Thing", "code", "int", "0", "1">> \in Facts(D2)
                /\ <<"F", "Thing.in", "x", "string", "0", "1">> \in Facts(D2)
